@@ -86,6 +86,38 @@ def private_helper(ctx, cname, name, callers, pick=None, table="methods"):
     return None
 
 
+def private_part_of(M, q, gate_quals):
+    """is the private function q only ever mentioned (called, passed on) inside the gate functions or inside other private
+    functions for which the same holds? Then it is a piece the gate was split into. Public functions never qualify."""
+    import ast
+
+    def mentioners(name):
+        out = set()
+        for f in M.funcs.values():
+            for n in ast.walk(f.node):
+                if (isinstance(n, ast.Attribute) and n.attr == name) or (isinstance(n, ast.Name) and n.id == name):
+                    out.add(f.qual)
+                    break
+        return out
+    seen = set()
+    todo = [q]
+    while todo:
+        x = todo.pop()
+        if x in seen:
+            continue
+        seen.add(x)
+        if x in gate_quals:
+            continue
+        name = x.split(":")[-1].split(".")[-1]
+        if not name.startswith("_") or (name.startswith("__") and name.endswith("__")):
+            return False
+        ms = mentioners(name) - {x}
+        if not ms:
+            return False
+        todo.extend(ms)
+    return True
+
+
 def tree_finders(ctx):
     """the two breadth-first tree searches {"sections": Func, "sources": Func}: by name, else the private function the
     public find_sections / find_sources members call"""
